@@ -1,7 +1,7 @@
 SPECIFICATION Spec
 CONSTANTS NU = 2  NG = 3  NC = 0  MaxOps = 3  Spurious = TRUE
   Amts <- A1  Ops <- OpsO  KickSets <- KS1
-  ClearAtomic = TRUE  LogAtomic = TRUE  KickConsume = TRUE  OfflineOnVeto = TRUE  CloseOnLateVeto = TRUE  OnlineFloor = TRUE
+  ClearAtomic = TRUE  LogAtomic = TRUE  KickConsume = TRUE  OfflineOnVeto = TRUE  CloseOnLateVeto = TRUE  AuthAtomic = TRUE  OnlineFloor = TRUE
 INVARIANT NoViolation
 VIEW View
 CHECK_DEADLOCK FALSE
